@@ -373,8 +373,50 @@ def rule_respell(ck):
                                     + (f"errors {errs} / raised {raised}" if raised or errs else f"tree {str(got)[:160]} instead of {str(want)[:160]}")
                                     + " - the emitted bytes depend on spelling, not on meaning", construct=f"respelling {how}: {plain.strip()}")
 
+def rule_grouping(ck):
+    """( E ), < E > and ^xEx (x any of the delimiter characters the parser accepts: / | : and so on) are one expression: the
+    real `code` parser on '.word <group>' for several E; every spelling parses cleanly and gives the tree of the '( )' spelling,
+    the bracket characters aside."""
+    from .c05 import run_parser
+    repo = ck.repo
+    I = eager_interp(repo)
+    where = "parser::expression_literal"
+
+    def norm(t):
+        t = _tree_norm(t)
+
+        def strip(x):
+            if isinstance(x, tuple):
+                if len(x) == 2 and x[0] in ("opening_parenthesis", "closing_parenthesis"):
+                    return (x[0], "*")
+                return tuple(strip(y) for y in x)
+            return x
+        return strip(t)
+    n = 0
+    for expr in ("val", "2+val", "val*2", "1+2", "val-lab", "lab", "val+1$", "-val"):
+        ref_text = f".word ({expr})\n"
+        r0, pos0, errs0, raised0 = run_parser(I, "code", ref_text)
+        if raised0 or errs0 or r0 is None:
+            raise Unknown(f"'{ref_text.strip()}' does not parse cleanly (errors {errs0}, raised {raised0})")
+        want = norm(r0)
+        for op, cl in (("<", ">"), ("^/", "/"), ("^|", "|"), ("^:", ":"), ("^?", "?")):
+            if cl in expr:
+                continue
+            text = f".word {op}{expr}{cl}\n"
+            r, pos, errs, raised = run_parser(I, "code", text)
+            n += 1
+            ck.instance(("grouping", expr, op), {"text": text.strip(), "errors": errs, "raised": raised} if n % 5 == 0 else None, fn=where)
+            got = norm(r) if r is not None else None
+            if raised or errs or got != want:
+                ck.violation(where, f"'{text.strip()}' " + (f"does not parse: errors {errs} / raised {raised}" if raised or errs else f"parses to {str(got)[:140]}") +
+                             f"; '{ref_text.strip()}' parses to {str(want)[:140]}: the grouping characters do not change the expression", construct=f"grouping {op}…{cl}")
+    if n < 25:
+        ck.unknown(f"only {n} grouped expressions parsed")
+
+
 def run(ck):
     from ..rules import route as _route
+    ck.run_rule("C10.group", "( ) versus < > versus ^x...x grouping: the same expression tree (real parser)", 25, rule_grouping)
     ck.run_rule("BLK.route", "an implicit word list and '.word' are one statement: values, byte order and the meaning of '.' agree", 1, _route.rule_block_route)
     ck.run_rule("C10.parse", "letter case, horizontal whitespace, blank lines, comments and a missing final newline do not change the parse tree (real parser on a statement corpus)", 150, rule_respell)
     ck.run_rule("G6", "comparisons of source text with cased constants are case-folded", 25, rule_G6)
